@@ -142,24 +142,38 @@ func (h *H) value() []byte {
 // ---------------------------------------------------------------- targets
 
 type target struct {
-	tok string
-	it  *iavl.ImmutableTree // nil if the version does not exist
-	ver int64
+	tok  string
+	it   *iavl.ImmutableTree // nil if the version does not exist
+	ver  int64
+	skip bool // obtaining the view panicked (already reported on its own trace line)
 }
 
-func (h *H) working() target { return target{"w", h.tree.WorkingTree(), h.tree.Version()} }
+func (h *H) working() target {
+	return target{tok: "w", it: h.tree.WorkingTree(), ver: h.tree.Version()}
+}
 
-func (h *H) immutable(v int64) target {
-	it, err := h.tree.GetImmutable(v)
-	if err != nil {
-		return target{tok: fmt.Sprintf("i%d", v)}
+func (h *H) immutable(v int64) (tg target) {
+	tok := fmt.Sprintf("i%d", v)
+	res := try(func() string {
+		it, err := h.tree.GetImmutable(v)
+		if err != nil {
+			tg = target{tok: tok}
+			return ""
+		}
+		tg = target{tok: tok, it: it, ver: v}
+		return ""
+	})
+	if res != "" {
+		// GetImmutable itself panicked (e.g. the root node is gone from the node DB)
+		h.t.Line("getimm", true, "getimm %d => %s", v, res)
+		return target{tok: tok, skip: true}
 	}
-	return target{fmt.Sprintf("i%d", v), it, v}
+	return tg
 }
 
 func (h *H) lazyView(v int64) target {
 	m := h.lazy[v]
-	return target{fmt.Sprintf("z%d", v), m.WorkingTree(), v}
+	return target{tok: fmt.Sprintf("z%d", v), it: m.WorkingTree(), ver: v}
 }
 
 // pickTarget: working tree half of the time, else a retained version (fresh immutable or held lazy
@@ -188,6 +202,9 @@ func (h *H) pickTarget() target {
 // ---------------------------------------------------------------- reads
 
 func (h *H) readGet(tg target, k []byte) {
+	if tg.skip {
+		return
+	}
 	res := "novers"
 	if tg.it != nil {
 		res = try(func() string {
@@ -199,6 +216,9 @@ func (h *H) readGet(tg target, k []byte) {
 }
 
 func (h *H) readHas(tg target, k []byte) {
+	if tg.skip {
+		return
+	}
 	res := "novers"
 	if tg.it != nil {
 		res = try(func() string { return fmt.Sprint(tg.it.Has(k)) })
@@ -207,6 +227,9 @@ func (h *H) readHas(tg target, k []byte) {
 }
 
 func (h *H) readIdx(tg target, i int64) {
+	if tg.skip {
+		return
+	}
 	res := "novers"
 	if tg.it != nil {
 		res = try(func() string {
@@ -238,6 +261,9 @@ func renderKVs(ks, vs [][]byte) string {
 
 // readIter: limit < 0 = drain; otherwise the callback stops after `limit` entries.
 func (h *H) readIter(tg target, s, e []byte, asc, incl bool, limit int) {
+	if tg.skip {
+		return
+	}
 	res := "novers"
 	if tg.it != nil {
 		res = try(func() string {
@@ -272,6 +298,9 @@ func (h *H) readIter(tg target, s, e []byte, asc, incl bool, limit int) {
 }
 
 func (h *H) readMeta(tg target) {
+	if tg.skip {
+		return
+	}
 	res := "novers"
 	if tg.it != nil {
 		res = try(func() string { return fmt.Sprintf("%d %d %d", tg.it.Size(), tg.it.Height(), tg.it.Version()) })
@@ -280,6 +309,9 @@ func (h *H) readMeta(tg target) {
 }
 
 func (h *H) readShape(tg target) {
+	if tg.skip {
+		return
+	}
 	res := "novers"
 	if tg.it != nil {
 		res = try(func() string {
@@ -468,7 +500,10 @@ func (h *H) doRollback() {
 	res := try(func() string { h.tree.Rollback(); return "ok" })
 	// re-derive the steering set from the tree itself
 	h.present = map[string]bool{}
-	h.tree.Iterate(func(k, _ []byte) bool { h.present[string(k)] = true; return false })
+	_ = try(func() string {
+		h.tree.Iterate(func(k, _ []byte) bool { h.present[string(k)] = true; return false })
+		return ""
+	})
 	h.t.Line("rollback", true, "rollback => %s", res)
 }
 
